@@ -2,7 +2,7 @@
 from .common import pipeline_for, combined
 
 LEVEL = 'other'
-RULES = ('M1', 'M2', 'M3', 'M4', 'M5', 'R01.b', 'R01.c', 'R04.a', 'R04.b', 'R04.c', 'R04.d', 'R04.e', 'S-OWN', 'R03.d', 'R04.f', 'R04.g', 'R15.b', 'R14.t', 'R07.e', 'R07.g', 'R04.n')
+RULES = ('M1', 'M2', 'M3', 'M4', 'M5', 'R01.b', 'R01.c', 'R04.a', 'R04.b', 'R04.c', 'R04.d', 'R04.e', 'S-OWN', 'R03.d', 'R04.f', 'R04.g', 'R15.b', 'R14.t', 'R07.e', 'R07.g', 'R04.n', 'R03.f', 'R02.r')
 
 
 def run(prog, rec, tier):
